@@ -141,7 +141,8 @@ func New(provided Config) (storage.PeerStore, error) {
 			case <-ps.closed:
 				return
 			case <-time.After(cfg.GarbageCollectionInterval):
-				before := time.Now().Add(-cfg.PeerLifetime)
+				// Peers are stamped with the cached clock, so their age is measured on it.
+				before := timecache.Now().Add(-cfg.PeerLifetime)
 				log.Debug("storage: purging peers with no announces since", log.Fields{"before": before})
 				_ = ps.collectGarbage(before)
 			}
